@@ -468,8 +468,23 @@ func (f *Frame) loopWrites(li *LoopInfo) map[string]bool {
 				for _, h := range e.P.ptrHeaps(e, x.Addr, map[ssa.Value]bool{}) {
 					w[h] = true
 				}
+			case *ssa.MapUpdate:
+				if mt, ok := x.Map.Type().Underlying().(*types.Map); ok {
+					n, vsort, psort := f.mapHeap(mt)
+					e.heapSort[n+"_v"] = vsort
+					e.heapSort[n+"_p"] = psort
+					w[n+"_v"] = true
+					w[n+"_p"] = true
+				}
 			case ssa.CallInstruction:
 				e.P.callWrites(e, x.Common(), w, map[*ssa.Function]bool{})
+				if b, ok := x.Common().Value.(*ssa.Builtin); ok && b.Name() == "delete" {
+					if mt, ok := x.Common().Args[0].Type().Underlying().(*types.Map); ok {
+						n, _, psort := f.mapHeap(mt)
+						e.heapSort[n+"_p"] = psort
+						w[n+"_p"] = true
+					}
+				}
 			}
 		}
 	}
